@@ -311,9 +311,12 @@ func runV2(c *v2.Client, o *Op) (out Outcome) {
 		pages := []PageOut{}
 		start := o.StartKey
 		for n := 0; n < o.MaxPages; n++ {
-			lek, items, err := searchV2(c, o, start)
-			if err != nil {
-				return errOutcomeV2(err)
+			lek, items, eo := safeSearchV2(c, o, start)
+			if eo != nil {
+				if len(pages) == 0 {
+					return eo
+				}
+				return Outcome{"pagesErr": map[string]interface{}{"pages": pages, "error": eo}}
 			}
 			pages = append(pages, PageOut{Items: items, LEK: lek})
 			if len(lek) == 0 {
@@ -438,4 +441,18 @@ func primaryKeyOf(o *Op, lek Item) Item {
 		}
 	}
 	return out
+}
+
+// safeSearchV2 turns an error or a panic of one page read into an outcome
+func safeSearchV2(c *v2.Client, o *Op, start Item) (lek Item, items []Item, eo Outcome) {
+	defer func() {
+		if r := recover(); r != nil {
+			eo = crashOutcome(r)
+		}
+	}()
+	lek, items, err := searchV2(c, o, start)
+	if err != nil {
+		return nil, nil, errOutcomeV2(err)
+	}
+	return lek, items, nil
 }
